@@ -10,25 +10,32 @@ import Ibx.Model.Addr
       naming returns;
     * POP3, which does NOT go through the address policy (open finding F-04d).
   If the source changes one of these shapes the obligation stops checking.
+
+  The facts are STRUCTURAL (harness/cmd/extract/addr2.go): exported / package-level things are found by name, unexported
+  helpers by following calls, locals / parameters / receivers by role (printed as `$x`, `$dom`, `$canon`, …), and control
+  flow is normalised to guarded exits, so renaming a local, parameter, receiver or unexported helper, if-chain <-> switch,
+  splitting / merging `||`, inverting an if / else, extracting an unexported helper or rewording an error text changes none
+  of them — while a changed literal, offset, operator, condition, order or callee does.
 -/
 namespace Ibx.Tie.Addr2
 open Ibx.Model.Addr
 
-/-- Read side = write side.  Every controller function that reads `ctx.Vars["name"]` (the table is not empty)
-    first turns it into the store key with `ctx.Manager.MailboxForAddress(ctx.Vars["name"])` (canon), reads the raw
-    name nowhere else and touches neither the manager nor the message hub before that call (onlyCanon); and
-    `StoreManager.MailboxForAddress` is literally `return s.AddrPolicy.ExtractMailbox(mailbox)`. -/
+/-- Read side = write side.  Every function of the REST / websocket / web-UI packages that gets at the URL name of its
+    `*web.Context` C (the table is not empty) first turns it into the store key with
+    `C.Manager.MailboxForAddress(C.Vars["name"])` (canon), reads the raw name nowhere else and touches neither the
+    manager nor the message hub before that call (onlyCanon); and `StoreManager.MailboxForAddress(P)` returns exactly
+    `R.AddrPolicy.ExtractMailbox(P)`. -/
 theorem read_side_same_function :
     Gen.Addr2.handlers.all (fun h => h.2.2.1 && h.2.2.2) = true
     ∧ Gen.Addr2.handlers ≠ []
     ∧ Gen.Addr2.mailboxForAddressIsExtract = true := by decide
 
-/-- No handler is missed.  The four controller files contain exactly one `…["name"]` index expression per table row
-    (so nobody reads the name through an alias or `mux.Vars`), the table has `handlerCount` rows, every route whose
-    path contains `{name}` is a recognised `r.Path(…).Handler(web.Handler(F))` registration, and each such `F` is a
-    row of the table. -/
+/-- No handler is missed.  The two controller packages contain no `…["name"]` index expression other than the argument
+    of the canonical call of a table row (so nobody reads the name through an alias, `mux.Vars` or a second time), the
+    table has `handlerCount` rows, every route whose path contains `{name}` is a recognised
+    `r.Path(…).Handler(web.Handler(F))` registration, and each such `F` is a row of the table. -/
 theorem handlers_complete :
-    Gen.Addr2.varsNameUses = Gen.Addr2.handlers.length
+    Gen.Addr2.strayNameReads = 0
     ∧ Gen.Addr2.handlerCount = Gen.Addr2.handlers.length
     ∧ Gen.Addr2.routeNameLits = Gen.Addr2.routesWithName.length
     ∧ Gen.Addr2.routesWithName ≠ []
@@ -51,10 +58,12 @@ theorem validateTag_tie :
     ∧ 6 = 1 + ipv6Tag.length := by decide
 
 /-- The name-shape test of `ExtractMailbox` is the modelled `nameShapeOk`: reject the empty name, a leading period,
-    a trailing period and two consecutive periods — these four conditions and no other. -/
+    a trailing period and two consecutive periods — the SET of rejecting conditions on the parsed name is these four
+    and no other (however they are spread over `||`, consecutive ifs, a switch or an unexported helper), and the
+    conditions that index the name come after the emptiness test (the model has no panic outcome). -/
 theorem nameShape_tie :
-    Gen.Addr2.nameShapeTest =
-      some ["local == \"\"", "local[0] == '.'", "local[len(local)-1] == '.'", "strings.Contains(local, \"..\")"] := by
+    Gen.Addr2.nameShapeTest = some ["dotDot", "empty", "leadDot", "trailDot"]
+    ∧ Gen.Addr2.nameShapeIndexGuarded = true := by
   decide
 
 /-- The name-shape test sits where the model puts it: after `parseMailboxName`, before the local/full naming
@@ -62,11 +71,13 @@ theorem nameShape_tie :
 theorem nameShape_position_tie :
     Gen.Addr2.nameShapeBeforeNamingSwitch = true ∧ Gen.Addr2.domainDispatchFirst = true := by decide
 
-/-- Full naming returns `local + "@" + canonicalDomain(domain)`. -/
-theorem fullReturn_tie : Gen.Addr2.fullReturn = some "local + \"@\" + canonicalDomain(domain)" := by decide
+/-- Full naming returns `local + "@" + canonicalDomain(domain)`: `$x` is the parsed mailbox name, `$dom` result 1 of the
+    raw address parser, `$canon` the helper whose shape `canonicalDomain_tie` pins. -/
+theorem fullReturn_tie : Gen.Addr2.fullReturn = some "$x + \"@\" + $canon($dom)" := by decide
 
-/-- Domain naming returns `canonicalDomain(domain)`. -/
-theorem domainReturn_tie : Gen.Addr2.domainReturn = some "canonicalDomain(domain)" := by decide
+/-- Domain naming returns `canonicalDomain(domain)`: `$dom` is the variable `ValidateDomainPart` vouched for, `$canon` the
+    same helper as in `fullReturn_tie`. -/
+theorem domainReturn_tie : Gen.Addr2.domainReturn = some "$canon($dom)" := by decide
 
 /-- POP3 has one of the two recognised shapes: either it never consults the address policy and USER / APOP store
     the client's argument verbatim as the mailbox key (what the code is today: open finding F-04d, replayed on a
